@@ -43,7 +43,16 @@ static void sm_limit(vh::Rng& r) {
             // (i) the subtraction mechanism observed at the helper boundary: same parameter set, only mh(0) = m_hSM changed,
             //     so that the heavy-Higgs terms are bit-identical and cannot add noise
             thdm::THDM_1L_parameters p1 = tt::fill_1L(m); thdm::THDM_F_parameters pF = tt::fill_F(m);
-            for (int q = 0; q < 2; ++q) { p1.mh(0) = ms[q]; p1.mhSM = ms[q]; pF.mh(0) = ms[q]; pF.mhSM = ms[q]; h1[q] = thdm::amu1L(p1); hF[q] = thdm::amu2L_F(pF); }
+            for (int q = 0; q < 2; ++q) {
+               p1.mh(0) = ms[q]; p1.mhSM = ms[q]; pF.mh(0) = ms[q]; pF.mhSM = ms[q];
+               // each judged evaluation is preceded by one that differs from it in exactly one group of inputs (fermion masses, couplings, gauge-boson masses):
+               // the subtracted SM-Higgs terms must be those of the current parameter set
+               { thdm::THDM_F_parameters pp = pF; thdm::THDM_1L_parameters p2 = p1; const int what = static_cast<int>((out->cur + q) % 4);
+                 if (what == 0) { pp.mu *= 1.03; pp.md *= 0.97; pp.ml *= 1.01; p2.ml *= 1.01; } else if (what == 1) { pp.alpha_em *= 1.01; pp.mm *= 1.01; p2.alpha_em *= 1.01; p2.mm *= 1.01; }
+                 else if (what == 2) { pp.mw *= 0.99; pp.mz *= 1.01; p2.mw *= 0.99; p2.mz *= 1.01; } else { pp.yuh *= 1.1; pp.ydh *= 0.9; pp.ylh *= 1.05; p2.ylh *= 1.05; }
+                 (void)thdm::amu2L_F(pp); (void)thdm::amu1L(p2); }
+               h1[q] = thdm::amu1L(p1); hF[q] = thdm::amu2L_F(pF);
+            }
             p1.mh(0) = ms[0]; p1.mhSM = 3 * ms[0]; pF.mh(0) = ms[0]; pF.mhSM = 3 * ms[0];
             ht1 = std::fabs(thdm::amu1L(p1) - h1[0]); htF = std::fabs(thdm::amu2L_F(pF) - hF[0]);
          }
